@@ -11,8 +11,9 @@ Two families of cases, both driven from ctx.rng:
   model (HcipyVerif.ModeBasis) and compares canonical text.
 * **mirror cases**: a random history of actuator updates on DeformableMirror,
   SegmentedDeformableMirror or TipTiltMirror in which the harness keeps — and later edits in
-  place — the very array objects it handed to / received from the mirror.  Oracle: every read of
-  surface / opd / phase_for / forward equals IF · (current actuators).  Correspondence: the
+  place — the very array objects it handed to / received from the mirror, the arrays returned by
+  dm.surface included.  Oracle: every read of surface / opd / phase_for / forward equals
+  IF · (current actuators).  Correspondence: the
   heap-and-handle state machine HcipyVerif.Mirror.
 """
 import contextlib
@@ -714,10 +715,21 @@ def gen_mirror_case(rng, big):
     cur = 0
     nops = int(rng.integers(6, 16 if not big else 40))
     small = lambda: float(rng.integers(-4, 5)) / float(rng.choice([1, 2]))  # noqa: E731
+    nreads = 0                   # every read leaves the caller with one more surface array (number nreads-1)
     for _ in range(nops):
         r = rng.random()
+        if nreads > 0 and rng.random() < 0.12:
+            # the caller edits, in place, a surface array that dm.surface handed out earlier (mostly the latest)
+            j = nreads - 1 if rng.random() < 0.7 else int(rng.integers(0, nreads))
+            ops.append({'op': 'sedit', 'j': j, 'i': int(rng.integers(0, npix)), 'v': small(),
+                        'mode': str(rng.choice(['item', 'item', 'imul0', 'fill']))})
+            if rng.random() < 0.75:
+                ops.append({'op': 'read', 'how': str(rng.choice(['surface', 'surface', 'opd', 'forward']))})
+                nreads += 1
+            continue
         if r < 0.28:
             ops.append({'op': 'read', 'how': str(rng.choice(['surface', 'surface', 'surface', 'opd', 'phase_for', 'forward', 'backward']))})
+            nreads += 1
         elif r < 0.55 and nact > 0:
             # in-place edit: mostly the current array, sometimes one handed out earlier
             h = cur if rng.random() < 0.7 else int(rng.integers(0, nh))
@@ -725,10 +737,12 @@ def gen_mirror_case(rng, big):
                         'via': str(rng.choice(['handle', 'property'])) if h == cur else 'handle'})
             if rng.random() < 0.5:
                 ops.append({'op': 'read', 'how': 'surface'})
+                nreads += 1
         elif r < 0.60 and nact > 0:
             # a change far below any comparison tolerance (2^-30), in place
             ops.append({'op': 'nudge', 'h': cur, 'i': int(rng.integers(0, nact))})
             ops.append({'op': 'read', 'how': 'surface'})
+            nreads += 1
         elif r < 0.68:
             v = [small() for _ in range(nact)]
             if ops and rng.random() < 0.3:
@@ -794,6 +808,9 @@ class MirrorRun:
         self.counts = {}
         self.hits = {}       # line index -> 'hit' | 'miss' | None as observed on the implementation
         self.nontrivial = False
+        self.held = []       # (ordinal of the model read, the array object dm.surface returned), one per read op
+        self.sedited = False # the history so far contains an in-place edit of a returned surface array
+        self.nreads = 0      # reads of dm.surface so far (= model reads)
 
     def count(self, k):
         self.counts[k] = self.counts.get(k, 0) + 1
@@ -920,6 +937,33 @@ class MirrorRun:
                 if not np.array_equal(np.asarray(dm.actuators), np.array(op['z']) * op['rms']):
                     self.bad.append(('mirror-random', 'random(rms) did not set the actuators to randn·rms'))
                 last_mut = 'random'
+            elif o == 'sedit':
+                # the caller edits, in place, an array that an earlier read of dm.surface returned
+                ordinal, arr = self.held[op['j']]
+                mode = op.get('mode', 'item')
+                if mode == 'item':
+                    arr[op['i']] = op['v']
+                    edits = [(op['i'], op['v'])]
+                elif mode == 'imul0':
+                    arr *= 0
+                    edits = [(i, 0.0) for i in range(npix)]
+                else:
+                    arr[:] = op['v']
+                    edits = [(i, op['v']) for i in range(npix)]
+                for i, x in edits:
+                    self.emit('C14 mirror sedit %d %d %s' % (ordinal, i, rat(x)), 'ok')
+                idx = len(self.lines)
+                now = np.asarray(arr).copy()
+                if exact:
+                    self.emit('C14 mirror held %d' % ordinal, 'ok ' + fmt_vec(now))
+                else:
+                    self.numeric[idx] = now
+                    self.emit('C14 mirror held %d' % ordinal, 'numeric')
+                self.count('mirror-sedit:' + mode)
+                self.count('mirror-sedit-target:' + ('latest' if op['j'] == len(self.held) - 1 else 'earlier'))
+                last_mut = 'edit-of-returned-surface'
+                self.sedited = True
+                self.nontrivial = True
             elif o == 'setif':
                 dm, IF = self.set_if(dm, grid, op, False)
                 self.emit('C14 mirror setif %d %d %s' % (IF.shape[0], IF.shape[1], fmt_mat(IF)), 'ok')
@@ -927,13 +971,14 @@ class MirrorRun:
             elif o == 'read':
                 if dm.actuators is not handles[cur]:
                     self.bad.append(('mirror-actuator-identity', 'the mirror does not hold the array it was given / handed out'))
-                before = getattr(dm, '_actuators_for_cached_surface', ABSENT)
                 how = op['how']
                 a = np.asarray(dm.actuators, dtype=float).copy()
                 ref = IF @ a if nact > 0 else np.zeros(npix)
                 k = 2 * np.pi / wl
+                before = getattr(dm, '_actuators_for_cached_surface', ABSENT)
                 if how == 'surface':
-                    got = np.asarray(dm.surface); want = ref
+                    surf_obj = dm.surface
+                    got = np.asarray(surf_obj).copy(); want = ref
                 elif how == 'opd':
                     got = np.asarray(dm.opd); want = 2 * ref
                 elif how == 'phase_for':
@@ -946,14 +991,27 @@ class MirrorRun:
                 ok_exact = got.shape == want.shape and np.array_equal(got, want)
                 ok_tol = got.shape == want.shape and bool(np.all(np.abs(got - want) <= TOL * max(1.0, float(np.abs(want).max(initial=0)))))
                 if not (ok_exact if (exact and how in ('surface', 'opd')) else ok_tol):
-                    self.bad.append(('stale-surface after-' + last_mut, '%s read through %s after %s is not (influence functions)·(current actuators): max deviation %.3g' % (
+                    self.bad.append(('stale-surface after-' + (last_mut if not self.sedited else 'edit-of-returned-surface'), '%s read through %s after %s is not (influence functions)·(current actuators): max deviation %.3g' % (
                         kind, how, last_mut, float(np.abs(got - want).max(initial=0)) if got.shape == want.shape else float('nan'))))
                 if not np.array_equal(np.asarray(dm.actuators, dtype=float), a):
                     self.bad.append(('read-changes-actuators', 'reading the surface changed the actuators'))
                 idx = len(self.lines)
                 self.hits[idx] = None if before is ABSENT else ('hit' if after is before else 'miss')
-                # the model always reports the surface itself; other read-outs are derived here
-                surf_now = np.asarray(dm.surface)
+                if how != 'surface':
+                    # the read-out evaluated dm.surface internally (one model read whose array nobody keeps);
+                    # the surface itself is then read by the caller (a second model read)
+                    self.emit('C14 mirror read', 'hit-only')
+                    self.nreads += 1
+                    before = getattr(dm, '_actuators_for_cached_surface', ABSENT)
+                    surf_obj = dm.surface
+                    after = getattr(dm, '_actuators_for_cached_surface', ABSENT)
+                    idx = len(self.lines)
+                    self.hits[idx] = None if before is ABSENT else ('hit' if after is before else 'miss')
+                surf_now = np.asarray(surf_obj).copy()
+                if how != 'surface' and not np.all(np.abs(surf_now - ref) <= TOL * max(1.0, float(np.abs(ref).max(initial=0)))):
+                    self.bad.append(('stale-surface after-' + (last_mut if not self.sedited else 'edit-of-returned-surface'), '%s: dm.surface after %s is not (influence functions)·(current actuators)' % (kind, last_mut)))
+                self.held.append((self.nreads, surf_obj))
+                self.nreads += 1
                 if exact:
                     self.emit('C14 mirror read', 'ok ' + fmt_vec(surf_now))
                 else:
@@ -1050,8 +1108,24 @@ def directed_cases():
             {'op': 'alias', 'h': 1}, {'op': 'read', 'how': 'surface'}, {'op': 'edit', 'h': 1, 'i': 1, 'v': 4.0, 'via': 'handle'}, {'op': 'read', 'how': 'surface'},
             {'op': 'setif', 'M': _m([[2, 0, 0], [0, 2, 0], [0, 0, 2], [1, 1, 1]]), 'sparse': True}, {'op': 'read', 'how': 'surface'},
             {'op': 'assign', 'v': None}, {'op': 'read', 'how': 'surface'}]
+    # the caller edits surface arrays it received (audit round 4, D22f): hit path, miss path, an older array,
+    # read-outs that evaluate dm.surface internally
+    shist = [{'op': 'assign', 'v': [1.0, 2.0, 3.0]}, {'op': 'read', 'how': 'surface'},
+             {'op': 'sedit', 'j': 0, 'i': 0, 'v': 0.0, 'mode': 'imul0'}, {'op': 'read', 'how': 'surface'},
+             {'op': 'sedit', 'j': 1, 'i': 2, 'v': 7.0, 'mode': 'item'}, {'op': 'read', 'how': 'opd'},
+             {'op': 'edit', 'h': 1, 'i': 0, 'v': -1.0, 'via': 'handle'}, {'op': 'read', 'how': 'forward'},
+             {'op': 'sedit', 'j': 3, 'i': 1, 'v': 2.5, 'mode': 'fill'}, {'op': 'sedit', 'j': 0, 'i': 1, 'v': 1.5, 'mode': 'item'},
+             {'op': 'read', 'how': 'surface'}, {'op': 'flatten'}, {'op': 'sedit', 'j': 4, 'i': 3, 'v': 4.0, 'mode': 'item'},
+             {'op': 'read', 'how': 'surface'}, {'op': 'sedit', 'j': 5, 'i': 0, 'v': 1.0, 'mode': 'item'}, {'op': 'read', 'how': 'phase_for'}]
     for kind in ('dm-dense', 'dm-sparse'):
         out.append({'type': 'mirror', 'kind': kind, 'npix': 4, 'nact': 3, 'M': _m(A43), 'ops': hist})
+        out.append({'type': 'mirror', 'kind': kind, 'npix': 4, 'nact': 3, 'M': _m(A43), 'ops': shist})
+    out.append({'type': 'mirror', 'kind': 'tiptilt', 'npix': 4, 'nact': 2,
+                'ops': [{'op': 'assign', 'v': [1.0, 2.0]}, {'op': 'read', 'how': 'surface'}, {'op': 'sedit', 'j': 0, 'i': 0, 'v': 0.0, 'mode': 'imul0'},
+                        {'op': 'read', 'how': 'surface'}]})
+    out.append({'type': 'mirror', 'kind': 'seg-dense', 'npix': 4, 'nact': 6, 'S': _m([[1, 0], [1, 0], [0, 1], [0, 0]]),
+                'ops': [{'op': 'segset', 'id': 1, 'p': 1.0, 't': 0.5, 'tl': -0.5}, {'op': 'read', 'how': 'surface'},
+                        {'op': 'sedit', 'j': 0, 'i': 2, 'v': 9.0, 'mode': 'item'}, {'op': 'read', 'how': 'surface'}]})
     return out
 
 
@@ -1071,9 +1145,9 @@ def run(ctx):
                 'SegmentedDeformableMirror (dense/sparse segments), TipTiltMirror with 6-15 operations: assign new array, re-assign an '
                 'array handed out earlier, in-place edit of the current or of an earlier array (through the kept handle or through '
                 'dm.actuators; also changes of 2^-30), +=, set_segment_actuators, flatten, random (draw patched to dyadic data), new influence functions / '
-                'segments, reads through surface / opd / phase_for / forward / backward. Exact comparison where all arithmetic is on '
+                'segments, reads through surface / opd / phase_for / forward / backward, in-place edits (item / *= 0 / fill) of a surface array that an earlier read of dm.surface returned (12% of the steps, mostly the latest array, 75% followed by a read). Exact comparison where all arithmetic is on '
                 'small dyadics, 1e-9 relative otherwise. Non-trivial: basis case with >=1 mode and >=1 derived basis; mirror case '
-                'with an in-place edit of the held array between two reads.')
+                'with an in-place edit of the held actuator array between two reads or an edit of a returned surface array.')
     ctx.assumptions += ['NumPy/SciPy indexing, hstack, dot and lstsq meet their specifications (the reference uses plain ndarray arithmetic and Python list indexing)',
                         'float arithmetic on the generated small dyadic numbers is exact',
                         'coefficients_for is only compared for independent modes with condition number <= 1e3']
@@ -1122,7 +1196,9 @@ def run(ctx):
                 continue
             ctx.traces_validated += 1
             stream = 'C14 ' + ' '.join(r.lines[j].split()[1:3 if r.lines[j].split()[1] == 'mirror' else 2])
-            if want == 'numeric':
+            if want == 'hit-only':
+                pass
+            elif want == 'numeric':
                 if got.startswith('err rank'):
                     ctx.disagree(stream, {'line': r.lines[j], 'impl': 'independent modes', 'model': got})
                     break
